@@ -546,7 +546,8 @@ class C19(PropertyCheck):
             "sub": ["C19.parallel_front_rows", "C19.parallel_front_from_end_rows", "C19.parallel_trailing_rows",
                     "C19.serial_front_columns", "C19.serial_front_from_end_columns",
                     "C19.serial_trailing_columns", "C19.front1d_pixels", "C19.front1d_from_end_pixels",
-                    "C19.trailing1d_pixels"],
+                    "C19.trailing1d_pixels", "C19.parallel_front_content", "C19.serial_front_content",
+                    "C19.front1d_content"],
             "ctor": ["C19.region2d_rejects_iff_invalid", "C19.region1d_rejects_iff_invalid"],
             "layout": ["C19.rotate_commutes_with_slice", "C19.region_after_extraction_eq_overlap"],
         }.get(case["kind"], ["C19.*"])
